@@ -1,4 +1,59 @@
-/- Line protocol of C11: placeholder until the model of this property is built. -/
+import BertE.Gen.Jira
+import BertE.Model.Jira
+/- Line protocol of the ticket gate:
+     `<bypassSetting> <bypassAuthor> <bypassPrefixes> <jiraKeys> <email> <url> <issueTypes> <disableVersionChecks>
+      <sourceBranch> <dstClasses> <targets> <lookup> [<issueProject> <issueType> <fixVersions>]`
+   flags 0/1; lists comma separated, `-` for the empty list (and for the empty string of email/url);
+   `%20` `%2C` `%25` escape space, comma, percent; lookup = found | notfound | error (the three issue
+   fields follow `found`). The destination classes are turned into their `allow_ticketless_pr` flag with
+   the table regenerated from the source. Answer: `pass` | `raise <Class>` | `crash <why>`.
+   `ticket <label>` answers `<KEY> <PROJECT>` or `none`; `version <v>` answers `<plain 0/1> <hotfix 0/1>`. -/
 namespace BertE.Drv.C11
-def handle (_args : List String) : String := "bad-op"
+open BertE.Jira
+
+def unescape (s : String) : String :=
+  ((s.replace "%20" " ").replace "%2C" ",").replace "%25" "%"
+
+def listOf (s : String) : List String :=
+  if s == "-" then [] else (s.splitOn ",").map unescape
+
+def strOf (s : String) : String := if s == "-" then "" else unescape s
+
+def showOutcome : Outcome → String
+  | .pass => "pass"
+  | .raise c => s!"raise {c}"
+  | .crash w => s!"crash {w}"
+
+def flagOf (cls : String) : Option Bool := (BertE.Gen.Jira.ticketless.find? (·.1 == cls)).map (·.2)
+
+def splitBranch (name : String) : String × String :=
+  match name.splitOn "/" with
+  | p :: rest => (p, "/".intercalate rest)
+  | [] => ("", "")
+
+def run (bs ba bp keys email url types dis branch dsts targets : String) (lk : Lookup) : String :=
+  match (listOf dsts).mapM flagOf with
+  | none => "bad-op"
+  | some flags =>
+    let c : Cfg := ⟨bs == "1", ba == "1", listOf bp, listOf keys, strOf email, strOf url, listOf types, dis == "1"⟩
+    let (p, l) := splitBranch (unescape branch)
+    showOutcome (jiraChecks c ⟨p, l, flags, listOf targets, lk⟩)
+
+def handle (args : List String) : String :=
+  match args with
+  | ["ticket", l] =>
+    match ticketOf (unescape l).toList with
+    | some t => s!"{t.key} {t.project}"
+    | none => "none"
+  | ["version", v] =>
+    let v := unescape v
+    s!"{if isPlainVersion v then 1 else 0} {if isHotfixVersion v then 1 else 0}"
+  | [bs, ba, bp, keys, email, url, types, dis, branch, dsts, targets, "found", proj, ty, fv] =>
+    run bs ba bp keys email url types dis branch dsts targets (.found ⟨strOf proj, strOf ty, listOf fv⟩)
+  | [bs, ba, bp, keys, email, url, types, dis, branch, dsts, targets, "notfound"] =>
+    run bs ba bp keys email url types dis branch dsts targets .notFound
+  | [bs, ba, bp, keys, email, url, types, dis, branch, dsts, targets, "error"] =>
+    run bs ba bp keys email url types dis branch dsts targets .error
+  | _ => "bad-op"
+
 end BertE.Drv.C11
